@@ -5,9 +5,12 @@ import (
 	"testing"
 
 	"verif/stats"
+	"verif/vk"
 )
 
 func TestMain(m *testing.M) {
+	// stores persist their creation time; a process need not run in UTC
+	vk.LocalZoneForShard()
 	rc := m.Run()
 	stats.WriteGlobal()
 	os.Exit(rc)
